@@ -413,6 +413,13 @@ def run_c12(facts, out):
                 why = ('same-time grouping changed: a timing-change line must keep the first pending point (%s), an '
                        'inherited line must overwrite it (%s)') % ('ok' if keep else 'not established',
                                                                    'ok' if over else 'not established')
+        if not ok:
+            # the same truth table as one condition: store iff `!timing_change || pending.is_none()`
+            merged = IF(BIN('Or', UN('Not', L('timing_change')), M('is_none', ANY()), commutative=True), ANY())
+            for (n, _a) in find(ctx, hfn['body'], merged):
+                n = strip(n)
+                if 'e' not in n and _overwrites(facts, ctx, n['t']):
+                    ok = True
         out.add('SS-C12', ac, 'group-logic', '%s:%d' % (bb.file, bb.line), ok, '' if ok else why, ordinal=False)
         rem = find(ctx, hfn['body'], ANY())
         sets_time = False
